@@ -37,7 +37,7 @@ Fixpoint chr_run (k : nat) (first : bool) (s : bytes) (n : nat) : res nat :=
   | S k' =>
     let c := hd0 s in
     if first || negb ((c =? 0) || memb c re_meta) then
-      let l := re_uclen c in
+      let l := re_uclen s in
       if first then
         (if Nat.eqb l 0 then NoFuel else do s' <- adv SUcLen s l; chr_run k' false s' (n + l))
       else
